@@ -286,7 +286,46 @@ pub fn dns_hostile(r: &mut Rng) -> (Vec<u8>, String) {
         0 => {
             // pointer loops and chains in the question name
             b = hdr(r.u16(), 0x0100, 1, 0, 0, 0);
-            let variant = r.below(5);
+            let variant = r.below(6);
+            if variant == 5 {
+                // a staircase of label-less BACKWARD pointers: the question is the root name at offset 12, every following record's
+                // owner name is just a pointer to the owner name of the record before it (record k needs k hops to expand)
+                let n = *r.pick(&[10usize, 126, 127, 128, 129, 1_000, 5_400, 0, 0]);
+                if n == 0 {
+                    // the same, packed: the pointers sit two octets apart inside the (opaque) data of a TXT record, the owner
+                    // name of the next record points at the last of them -- up to 8 000 hops below offset 16 384
+                    let hops = *r.pick(&[200usize, 2_000, 8_000]);
+                    b = hdr(r.u16(), 0x8100, 1, 2, 0, 0);
+                    b.extend_from_slice(&[0, 0, 1, 0, 1]);
+                    b.extend_from_slice(&[0, 0, 16, 0, 1, 0, 0, 0, 60]);
+                    b.extend_from_slice(&((2 * hops) as u16).to_be_bytes());
+                    let mut prev = 12usize;
+                    for _ in 0..hops {
+                        let here = b.len();
+                        b.push(0xc0 | (prev >> 8) as u8);
+                        b.push(prev as u8);
+                        prev = here;
+                    }
+                    b.push(0xc0 | (prev >> 8) as u8);
+                    b.push(prev as u8);
+                    b.extend_from_slice(&[0, 1, 0, 1, 0, 0, 0, 60, 0, 4, 10, 0, 0, 1]);
+                    return (b, format!("packed-backward-pointer-chain-{}", hops));
+                }
+                b = hdr(r.u16(), 0x8100, 1, n as u16, 0, 0);
+                b.extend_from_slice(&[0, 0, 1, 0, 1]);
+                let mut prev = 12usize;
+                for _ in 0..n {
+                    let here = b.len();
+                    b.push(0xc0 | (prev >> 8) as u8);
+                    b.push(prev as u8);
+                    b.extend_from_slice(&[0, 1, 0, 1, 0, 0, 0, 60, 0, 0]);
+                    prev = here;
+                    if prev >= 0x3fff {
+                        break;
+                    }
+                }
+                return (b, format!("backward-pointer-staircase-{}", n));
+            }
             match variant {
                 0 => b.extend_from_slice(&[0xc0, 12]),             // self loop
                 1 => b.extend_from_slice(&[0xc0, 14, 0xc0, 12]),   // two-step loop
